@@ -175,6 +175,31 @@ func init() {
 			}
 			var obs []Obligation
 			ord := &ordinal{}
+			// the clear is unconditional: the only reasons not to clear the flag are that there is no
+			// frame or that the flag is not set — the edge of the test that does not lead to the store
+			// entails `no frame ∨ ¬Terminal`.  A further conjunct (`… && argsMayCall(cells[1:])`) leaves
+			// the head of the application to be evaluated in terminal context.
+			{
+				cls := func(e ast.Expr) (string, bool) {
+					e = ast.Unparen(e)
+					if se, ok := e.(*ast.SelectorExpr); ok && FieldOfSelector(info, se) == term {
+						return "term", false
+					}
+					if be, ok := e.(*ast.BinaryExpr); ok && (be.Op == token.NEQ || be.Op == token.EQL) {
+						if isNilIdent(info, be.Y) || isNilIdent(info, be.X) {
+							return "frame", be.Op == token.EQL
+						}
+					}
+					return "", false
+				}
+				if fc.edgeEntails(testBlock, 1, cls, func(v map[string]bool) bool {
+					return (v["$has:term"] && !v["term"]) || (v["$has:frame"] && !v["frame"])
+				}) {
+					obs = append(obs, mkOb(c, "TRO.args-nonterminal", u, "clear is unconditional", fc.CondOf(testBlock), Proved, "the flag is left alone only when there is no frame or it is not set", true))
+				} else {
+					obs = append(obs, mkOb(c, "TRO.args-nonterminal", u, "clear is unconditional", fc.CondOf(testBlock), Violated, "the Terminal flag can stay set although a frame exists and the flag is set (a further condition guards the clear): the head of the application — and any argument the extra condition misjudges — is then evaluated in terminal context, and a call inside it is collapsed into the enclosing frame (`((build (- n 1)) n)` in tail position answers with a tail-recursion mark)", true))
+				}
+			}
 			for _, b := range fc.G.Blocks {
 				if !fc.Live(b) {
 					continue
